@@ -414,7 +414,10 @@ func (app *App) addRoute(method string, route *Route, isMounted ...bool) {
 	l := len(app.stack[m])
 	if l > 0 && app.stack[m][l-1].Path == route.Path && route.use == app.stack[m][l-1].use && !route.mount && !app.stack[m][l-1].mount {
 		preRoute := app.stack[m][l-1]
-		preRoute.Handlers = append(preRoute.Handlers, route.Handlers...)
+		// The handlers slice is shared by the routes of all methods of one registration:
+		// never append into its spare capacity
+		n := len(preRoute.Handlers)
+		preRoute.Handlers = append(preRoute.Handlers[:n:n], route.Handlers...)
 	} else {
 		// Increment global route position
 		route.pos = atomic.AddUint32(&app.routesCount, 1)
